@@ -82,8 +82,6 @@ var singleSided = map[string]struct {
 	"IsOwner|field modeWant":     {1, "ownership acceptance: previously not requested"},
 	"IsOwner|value":              {11, "requested mode asks for / drops O; default access must not contain O; offline set-sub"},
 	"IsPresencer|field modeWant": {1, "channel reader push subscription follows the requested P bit (grant is fixed)"},
-	"IsPresencer|pair":           {1, "want/given pair returned by getPerUserAcs"},
-	"IsReader|pair":              {1, "want/given pair returned by getPerUserAcs"},
 }
 
 func checkC07(c *Ctx) {
@@ -130,7 +128,9 @@ func (c *Ctx) checkIntersect() {
 	// lift: resolves a receiver to (class, isIntersection) pairs; parameters are resolved at the callers.
 	var lift func(fn *ssa.Function, recv ssa.Value, depth int, pos string, pred string)
 	lift = func(fn *ssa.Function, recv ssa.Value, depth int, pos string, pred string) {
-		if c.isEffMode()(recv) || c.isEffModeSub()(recv) || (c.isIntersection(recv, 0) && !c.pairCall(recv)) {
+		// want&given of one record, of one stored subscription, or of the pair returned by the
+		// record accessor (C07.1c checks that it returns the two sides of one record)
+		if c.isEffMode()(recv) || c.isEffModeSub()(recv) || c.isIntersection(recv, 0) {
 			sites = append(sites, vsite{fn, pos, pred, "intersection", true})
 			return
 		}
